@@ -16,6 +16,20 @@ package app_test
 //   (iii) position younger than the record's uptime: nothing claimable, and a withdrawal pays it nothing in that denom
 //         while other liquidity stays active                         key incentives:unmet-uptime-paid
 //   (iv)  incentive balance ≥ Σ claimable (oracleSolvency).
+// Non-default uptimes: per history a random non-empty subset of the six supported uptimes (1ns, 1m, 1h, 1d, 1w, 2w) is
+// authorised; records are created on the authorised ones (refused on the others); advanceToAge puts a position 1 ns below /
+// exactly at / 1 ns above / above / far above / below an uptime; uptimeScript builds the directed sequences.  Oracles from
+// the engine's own log of join times (posCreated: creation and add-to-position; nothing else writes it), record
+// parameters and block times:
+//   (a)   a transfer keeps what is collectable and what is forfeitable, per denom, and the join time
+//                                                                    keys incentives:transfer-changed-claimable:<uptime>:age-<class>,
+//                                                                    incentives:transfer-changed-join-time, incentives:join-time-differs-from-log:<op>
+//   (b)   per op and denom, on branches synced to the block time: phi = paid out + claimable + forfeitable − emitted (keeper
+//         records) does not fall by more than the rounding dust: forfeits reach the accumulators (liquidity that stays active)
+//         or the withdrawer (none stays active)                      keys incentives:forfeit-not-redeposited:<op>:<uptime> (position acted
+//                                                                    upon younger than the uptime), incentives:attributable-lost:<op>:<uptime>
+//   (c)   age ≥ uptime ⇒ nothing forfeitable / forfeited, age < uptime ⇒ nothing collectable / collected, on every claimable
+//         query and claim                                            keys incentives:uptime-gate:(young-position-collects|old-position-forfeits):…
 // Spread rewards, no loss: what sits in the spread-reward address and nobody can claim is bounded by rounding dust
 //   balance − Σ claimable ≤ dust        (⇔ Σ claimed + Σ claimable ≥ Σ fees paid in − dust)   key rewards:spread-lost:<op-class>
 
